@@ -243,11 +243,22 @@ get_global_element(int n) {
 }
 
 /**
+ * The record returned for an unknown TypeIndex: every query on it, including
+ * the array size, must yield the neutral value.
+ */
+static InterrogateType
+make_bogus_type() {
+  InterrogateType bogus_type;
+  bogus_type._array_size = 0;
+  return bogus_type;
+}
+
+/**
  * Returns the type associated with the given TypeIndex, if there is one.
  */
 const InterrogateType &InterrogateDatabase::
 get_type(TypeIndex type) {
-  static InterrogateType bogus_type;
+  static InterrogateType bogus_type = make_bogus_type();
 
   check_latest();
   TypeMap::const_iterator ti;
